@@ -42,8 +42,10 @@ type c15Scenario struct {
 	FileDump   string `json:"file_dump"`    // "" | partial | corrupt : real file backend with such a checkpoint file
 	// EndDuringOpen k>0: while the start-up is requesting the k-th assigned vBucket, the server ends the (already open)
 	// stream of the first one with a transient cause. EndReopenFails: the re-open of that vBucket keeps failing.
-	EndDuringOpen  int  `json:"end_during_open,omitempty"`
-	EndReopenFails bool `json:"end_reopen_fails,omitempty"`
+	// SeqOmit: vb indices the (successful) sequence-number query has no entry for
+	SeqOmit        []int `json:"seq_omit,omitempty"`
+	EndDuringOpen  int   `json:"end_during_open,omitempty"`
+	EndReopenFails bool  `json:"end_reopen_fails,omitempty"`
 }
 
 func (sc c15Scenario) rangeOf() (int, int) { return c16Range(sc.NumVb, sc.Total, sc.Member) }
@@ -88,6 +90,14 @@ func (sc c15Scenario) expectedFault() string {
 	}
 	for i := 0; i < n; i++ {
 		if r := sc.Rel[i%len(sc.Rel)]; r != 9 && r > 0 {
+			return "checkpoint seqNo bigger then vBucket latest seqNo"
+		}
+	}
+	// a vBucket the sample says nothing about has, as far as the client knows, reached nothing: a stored position
+	// above zero cannot be verified and must be refused like one above the high seqno
+	for _, o := range sc.SeqOmit {
+		i := o % n
+		if r := sc.Rel[i%len(sc.Rel)]; r != 9 && sc.High[i%len(sc.High)]+r > 0 {
 			return "checkpoint seqNo bigger then vBucket latest seqNo"
 		}
 	}
@@ -151,6 +161,10 @@ func c15Child(raw json.RawMessage) any {
 	}
 	if sc.SeqNoErr {
 		cl.seqNoErr = fmt.Errorf("injected seqno failure")
+	}
+	cl.seqOmit = map[uint16]bool{}
+	for _, o := range sc.SeqOmit {
+		cl.seqOmit[uint16(lo+o%n)] = true
 	}
 	bad := map[uint16]bool{}
 	for _, f := range sc.FailoverEr {
@@ -371,7 +385,11 @@ func c15Exec(sc c15Scenario) string {
 		return fmt.Sprintf("start-up should fail (%s) but the process did not terminate abnormally: %s", want, strings.ReplaceAll(r.Stdout, "\n", " | "))
 	}
 	if !strings.Contains(r.Stderr, want) {
-		return fmt.Sprintf("start-up failed, but not with %q: %s", want, firstLine(r.Stderr))
+		// the checkpoint-ahead guard fires on a goroutine of the map's Range while the opening goroutine carries on
+		// with the offsets loaded so far; whichever of the two fail-stops is printed first, the start-up was refused
+		if !(strings.HasPrefix(want, "checkpoint seqNo bigger") && strings.Contains(r.Stderr, "not found on offset map")) {
+			return fmt.Sprintf("start-up failed, but not with %q: %s", want, firstLine(r.Stderr))
+		}
 	}
 	if consumed != 0 {
 		return fmt.Sprintf("%d events were delivered by a start-up that failed", consumed)
@@ -387,7 +405,7 @@ func c15Gen(rt *rapid.T) c15Scenario {
 	n := hi - lo + 1
 	sc.High = rapid.SliceOfN(rapid.IntRange(0, 40), 1, 6).Draw(rt, "high")
 	relGen := rapid.SampledFrom([]int{9, 9, -2, -1, 0, 0})
-	kind := rapid.SampledFrom([]string{"control", "control", "above", "above", "load", "seqno", "failover", "open", "open", "membership", "metadata", "leader", "reopen", "multi", "partial_load", "partial_load", "file_dump", "end_during_open", "end_during_open", "end_during_open", "end_during_open"}).Draw(rt, "kind")
+	kind := rapid.SampledFrom([]string{"control", "control", "above", "above", "load", "seqno", "failover", "open", "open", "membership", "metadata", "leader", "reopen", "multi", "partial_load", "partial_load", "file_dump", "end_during_open", "end_during_open", "end_during_open", "end_during_open", "seq_omit", "seq_omit"}).Draw(rt, "kind")
 	if kind == "failover" {
 		relGen = rapid.Just(9)
 		sc.Reset = "latest"
@@ -414,6 +432,14 @@ func c15Gen(rt *rapid.T) c15Scenario {
 		sc.MetaType = rapid.SampledFrom([]string{"File", "redis", " couchbase", "x"}).Draw(rt, "metatype")
 	case "leader":
 		sc.LeaderType = rapid.SampledFrom([]string{"Kubernetes", "etcd", "x"}).Draw(rt, "ltype")
+	case "seq_omit":
+		sc.SeqOmit = subset("seqomit")
+		for i := range sc.Rel {
+			if sc.Rel[i] > 0 {
+				sc.Rel[i] = 0
+			}
+		}
+		sc.Reset = "earliest"
 	case "reopen":
 		sc.ReopenFail = true
 	case "end_during_open":
